@@ -5,19 +5,17 @@
 #include "nanoisa/nvm_format.h"
 struct verif_ghost __verif_g;
 uint32_t __verif_gi;           /* ghost byte index for the coverage lemma */
-uint32_t __verif_seen;         /* how many times byte gi was visited */
-uint32_t __verif_last;         /* last index visited + 1 */
 
 static uint32_t crc32_table[256];
 static bool crc32_initialized;
 
 uint32_t nvm_crc32(const uint8_t *data, uint32_t size)
 __CPROVER_requires(size == 0 || __CPROVER_is_fresh(data, size))
-__CPROVER_requires(__verif_seen == 0 && __verif_last == 0)
-__CPROVER_assigns(crc32_initialized, __CPROVER_object_whole(crc32_table), __verif_seen, __verif_last)
+__CPROVER_requires(__verif_g.seen == 0 && __verif_g.last == 0)
+__CPROVER_assigns(crc32_initialized, __CPROVER_object_whole(crc32_table), __verif_g)
 /* every byte index below size is visited exactly once, in ascending order, none beyond */
-__CPROVER_ensures(__verif_seen == (__verif_gi < size ? 1u : 0u))
-__CPROVER_ensures(__verif_last == size)
+__CPROVER_ensures(__verif_g.seen == (__verif_gi < size ? 1u : 0u))
+__CPROVER_ensures(__verif_g.last == size)
 __CPROVER_ensures(crc32_initialized);
 
 #include "nanoisa/nvm_format.c"
